@@ -352,6 +352,7 @@ type op =
 | Throw of exc
 | Close
 | Del
+| ThrowNC of exc
 
 type result =
 | RYield of val0
@@ -378,10 +379,18 @@ let is_genexit = function
 | EGenExit -> true
 | _ -> false
 
-(** val pep479 : exc -> exc **)
+(** val eStopAsync : exc **)
 
-let pep479 e =
-  if is_stopiter e then ERuntime Z0 else e
+let eStopAsync =
+  EUser (Zneg (XO XH))
+
+(** val pep479 : bool -> exc -> exc **)
+
+let pep479 agen e = match e with
+| EStopIter _ -> ERuntime Z0
+| EUser id ->
+  if (&&) (Z.eqb id (Zneg (XO XH))) agen then ERuntime (Zpos (XI XH)) else e
+| _ -> e
 
 (** val sub_send : subiter -> val0 -> sres * subiter **)
 
@@ -393,19 +402,20 @@ let sub_send it v =
         | None -> ((SErr EAttr), it))
 
 type fixes = { fx_first_send : bool; fx_throw_si_fresh : bool;
-               fx_close_ret : bool; fx_si_at_yf : bool }
+               fx_close_ret : bool; fx_si_at_yf : bool; fx_ag_fresh_del : 
+               bool }
 
 (** val fx_none : fixes **)
 
 let fx_none =
   { fx_first_send = false; fx_throw_si_fresh = false; fx_close_ret = false;
-    fx_si_at_yf = false }
+    fx_si_at_yf = false; fx_ag_fresh_del = false }
 
 (** val fx_all : fixes **)
 
 let fx_all =
   { fx_first_send = true; fx_throw_si_fresh = true; fx_close_ret = true;
-    fx_si_at_yf = true }
+    fx_si_at_yf = true; fx_ag_fresh_del = true }
 
 type 'l rlabel =
 | RFresh
@@ -447,17 +457,17 @@ let c_set_running s b =
 let c_set_yf s y =
   { c_label = s.c_label; c_running = s.c_running; c_yf = y }
 
-(** val cy_exit_error : 'a1 cstate -> exc -> gres * 'a1 cstate **)
+(** val cy_exit_error : bool -> 'a1 cstate -> exc -> gres * 'a1 cstate **)
 
-let cy_exit_error s e =
-  ((GError (pep479 e)), { c_label = RDone; c_running = s.c_running; c_yf =
-    None })
+let cy_exit_error agen s e =
+  ((GError (pep479 agen e)), { c_label = RDone; c_running = s.c_running;
+    c_yf = None })
 
 (** val cy_run_user :
-    ('a1 -> input -> 'a1 outcome) -> 'a1 cstate -> 'a1 -> input ->
+    ('a1 -> input -> 'a1 outcome) -> bool -> 'a1 cstate -> 'a1 -> input ->
     (gres * 'a1 cstate) * 'a1 log **)
 
-let cy_run_user step s k i =
+let cy_run_user step agen s k i =
   match step k i with
   | OYield (v, k') -> (((GNext v), (c_set_label s (RAt k'))), ((k, i) :: []))
   | ODelegate (v, it, k') ->
@@ -466,63 +476,65 @@ let cy_run_user step s k i =
   | OReturn v ->
     (((GReturn v), { c_label = RDone; c_running = s.c_running; c_yf =
       None }), ((k, i) :: []))
-  | ORaise e -> ((cy_exit_error s e), ((k, i) :: []))
+  | ORaise e -> ((cy_exit_error agen s e), ((k, i) :: []))
 
 (** val cy_body :
-    'a1 -> ('a1 -> input -> 'a1 outcome) -> 'a1 cstate -> sendarg ->
+    'a1 -> ('a1 -> input -> 'a1 outcome) -> bool -> 'a1 cstate -> sendarg ->
     (gres * 'a1 cstate) * 'a1 log **)
 
-let cy_body start step s a =
+let cy_body start step agen s a =
   match s.c_label with
   | RFresh ->
     (match a with
      | AVal v ->
        (match v with
-        | VNone -> cy_run_user step s start (ISend VNone)
-        | VInt _ -> ((cy_exit_error s (EType Z0)), []))
-     | AExc e -> ((cy_exit_error s e), []))
+        | VNone -> cy_run_user step agen s start (ISend VNone)
+        | VInt _ -> ((cy_exit_error agen s (EType Z0)), []))
+     | AExc e -> ((cy_exit_error agen s e), []))
   | RAt k ->
-    cy_run_user step s k (match a with
-                          | AVal v -> ISend v
-                          | AExc e -> IThrow e)
+    cy_run_user step agen s k
+      (match a with
+       | AVal v -> ISend v
+       | AExc e -> IThrow e)
   | RDone ->
     (((GError (ERuntime (Zpos (XI (XI (XO (XO (XO (XI XH))))))))), s), [])
 
 (** val cy_send_ex :
-    'a1 -> ('a1 -> input -> 'a1 outcome) -> bool -> 'a1 cstate -> sendarg ->
-    bool -> (gres * 'a1 cstate) * 'a1 log **)
+    'a1 -> ('a1 -> input -> 'a1 outcome) -> bool -> bool -> 'a1 cstate ->
+    sendarg -> bool -> (gres * 'a1 cstate) * 'a1 log **)
 
-let cy_send_ex start step coro s a closing =
+let cy_send_ex start step coro agen s a closing =
   match s.c_label with
   | RDone ->
     if (&&) coro (negb closing)
     then (((GError (ERuntime (Zpos (XO XH)))), s), [])
     else (match a with
-          | AVal _ -> (((GError (EStopIter VNone)), s), [])
+          | AVal _ ->
+            (((GError (if agen then eStopAsync else EStopIter VNone)), s), [])
           | AExc e -> (((GError e), s), []))
-  | _ -> cy_body start step s a
+  | _ -> cy_body start step agen s a
 
 (** val cy_send_ex_guard :
-    'a1 -> ('a1 -> input -> 'a1 outcome) -> bool -> fixes -> 'a1 cstate ->
-    sendarg -> bool -> (gres * 'a1 cstate) * 'a1 log **)
+    'a1 -> ('a1 -> input -> 'a1 outcome) -> bool -> bool -> fixes -> 'a1
+    cstate -> sendarg -> bool -> (gres * 'a1 cstate) * 'a1 log **)
 
-let cy_send_ex_guard start step coro fx s a closing =
+let cy_send_ex_guard start step coro agen fx s a closing =
   match s.c_label with
   | RFresh ->
     (match a with
      | AVal v ->
        (match v with
-        | VNone -> cy_send_ex start step coro s a closing
+        | VNone -> cy_send_ex start step coro agen s a closing
         | VInt _ ->
           if fx.fx_first_send
           then (((GError (EType Z0)), s), [])
-          else cy_send_ex start step coro s a closing)
+          else cy_send_ex start step coro agen s a closing)
      | AExc e ->
        if fx.fx_throw_si_fresh
        then (((GError e), { c_label = RDone; c_running = s.c_running; c_yf =
               None }), [])
-       else cy_send_ex start step coro s a closing)
-  | _ -> cy_send_ex start step coro s a closing
+       else cy_send_ex start step coro agen s a closing)
+  | _ -> cy_send_ex start step coro agen s a closing
 
 (** val arg_of_sub_error : exc -> sendarg **)
 
@@ -542,10 +554,10 @@ let unrun = function
 | (p, l) -> let (r, s) = p in ((r, (c_set_running s false)), l)
 
 (** val cy_amsend :
-    'a1 -> ('a1 -> input -> 'a1 outcome) -> bool -> fixes -> 'a1 cstate ->
-    val0 -> (gres * 'a1 cstate) * 'a1 log **)
+    'a1 -> ('a1 -> input -> 'a1 outcome) -> bool -> bool -> fixes -> 'a1
+    cstate -> val0 -> (gres * 'a1 cstate) * 'a1 log **)
 
-let cy_amsend start step coro fx s v =
+let cy_amsend start step coro agen fx s v =
   if s.c_running
   then (((GError (EValue Z0)), s), [])
   else let s1 = c_set_running s true in
@@ -558,16 +570,16 @@ let cy_amsend start step coro fx s v =
                (Some it') }), [])
            | SErr e ->
              unrun
-               (cy_send_ex start step coro (c_set_yf s1 None)
+               (cy_send_ex start step coro agen (c_set_yf s1 None)
                  (arg_of_sub_error e) false))
         | None ->
-          unrun (cy_send_ex_guard start step coro fx s1 (AVal v) false))
+          unrun (cy_send_ex_guard start step coro agen fx s1 (AVal v) false))
 
-(** val result_of_gres : gres -> result **)
+(** val result_of_gres : bool -> gres -> result **)
 
-let result_of_gres = function
+let result_of_gres agen = function
 | GNext v -> RYield v
-| GReturn v -> RRaise (EStopIter v)
+| GReturn v -> RRaise (if agen then eStopAsync else EStopIter v)
 | GError e -> RRaise e
 
 (** val cy_close_iter : subiter -> exc option * subiter **)
@@ -578,10 +590,10 @@ let cy_close_iter it =
   | None -> (None, it)
 
 (** val cy_close :
-    'a1 -> ('a1 -> input -> 'a1 outcome) -> bool -> fixes -> 'a1 cstate ->
-    (gres * 'a1 cstate) * 'a1 log **)
+    'a1 -> ('a1 -> input -> 'a1 outcome) -> bool -> bool -> fixes -> 'a1
+    cstate -> (gres * 'a1 cstate) * 'a1 log **)
 
-let cy_close start step coro fx s =
+let cy_close start step coro agen fx s =
   if s.c_running
   then (((GError (EValue Z0)), s), [])
   else let s1 = c_set_running s true in
@@ -594,7 +606,7 @@ let cy_close start step coro fx s =
             | Some e -> arg_at_yf fx e
             | None -> AExc EGenExit
           in
-          let (p, l) = cy_send_ex start step coro s2 a true in
+          let (p, l) = cy_send_ex start step coro agen s2 a true in
           let (r0, s3) = p in
           let s4 = c_set_running s3 false in
           (match r0 with
@@ -614,7 +626,7 @@ let cy_close start step coro fx s =
             | Some e -> arg_at_yf fx e
             | None -> AExc EGenExit
           in
-          let (p, l) = cy_send_ex start step coro s1 a true in
+          let (p, l) = cy_send_ex start step coro agen s1 a true in
           let (r, s3) = p in
           let s4 = c_set_running s3 false in
           (match r with
@@ -629,23 +641,25 @@ let cy_close start step coro fx s =
              else (((GError e), s4), l)))
 
 (** val cy_throw :
-    'a1 -> ('a1 -> input -> 'a1 outcome) -> bool -> fixes -> 'a1 cstate ->
-    exc -> (gres * 'a1 cstate) * 'a1 log **)
+    'a1 -> ('a1 -> input -> 'a1 outcome) -> bool -> bool -> fixes -> bool ->
+    'a1 cstate -> exc -> (gres * 'a1 cstate) * 'a1 log **)
 
-let cy_throw start step coro fx s e =
+let cy_throw start step coro agen fx close_on_genexit s e =
   if s.c_running
   then (((GError (EValue Z0)), s), [])
   else let s1 = c_set_running s true in
        (match s1.c_yf with
         | Some it ->
-          if is_genexit e
+          if (&&) (is_genexit e) close_on_genexit
           then let (err, _) = cy_close_iter it in
                let s2 = c_set_yf s1 None in
                (match err with
                 | Some e' ->
                   unrun
-                    (cy_send_ex start step coro s2 (arg_at_yf fx e') false)
-                | None -> unrun (cy_send_ex start step coro s2 (AExc e) false))
+                    (cy_send_ex start step coro agen s2 (arg_at_yf fx e')
+                      false)
+                | None ->
+                  unrun (cy_send_ex start step coro agen s2 (AExc e) false))
           else (match si_throw it with
                 | Some f ->
                   let (s0, it') = f e in
@@ -655,24 +669,27 @@ let cy_throw start step coro fx s e =
                        c_yf = (Some it') }), [])
                    | SErr e' ->
                      unrun
-                       (cy_send_ex start step coro (c_set_yf s1 None)
+                       (cy_send_ex start step coro agen (c_set_yf s1 None)
                          (arg_of_sub_error e') false))
                 | None ->
                   unrun
-                    (cy_send_ex start step coro (c_set_yf s1 None)
+                    (cy_send_ex start step coro agen (c_set_yf s1 None)
                       (arg_at_yf fx e) false))
         | None ->
-          unrun (cy_send_ex_guard start step coro fx s1 (AExc e) false))
+          unrun (cy_send_ex_guard start step coro agen fx s1 (AExc e) false))
 
 (** val cy_del :
-    'a1 -> ('a1 -> input -> 'a1 outcome) -> bool -> fixes -> 'a1 cstate ->
-    (result * 'a1 cstate) * 'a1 log **)
+    'a1 -> ('a1 -> input -> 'a1 outcome) -> bool -> bool -> fixes -> 'a1
+    cstate -> (result * 'a1 cstate) * 'a1 log **)
 
-let cy_del start step coro fx s =
+let cy_del start step coro agen fx s =
   match s.c_label with
-  | RFresh -> if coro then ((RWarn, s), []) else ((RNone, s), [])
+  | RFresh ->
+    if (||) coro ((&&) agen (negb fx.fx_ag_fresh_del))
+    then ((RWarn, s), [])
+    else ((RNone, s), [])
   | RAt _ ->
-    let (p, l) = cy_close start step coro fx s in
+    let (p, l) = cy_close start step coro agen fx s in
     let (r, s') = p in
     (match r with
      | GError e -> (((RUnraisable e), s'), l)
@@ -680,32 +697,35 @@ let cy_del start step coro fx s =
   | RDone -> ((RNone, s), [])
 
 (** val cy_op :
-    'a1 -> ('a1 -> input -> 'a1 outcome) -> bool -> fixes -> 'a1 cstate -> op
-    -> (result * 'a1 cstate) * 'a1 log **)
+    'a1 -> ('a1 -> input -> 'a1 outcome) -> bool -> bool -> fixes -> 'a1
+    cstate -> op -> (result * 'a1 cstate) * 'a1 log **)
 
-let cy_op start step coro fx s = function
+let cy_op start step coro agen fx s = function
 | Next ->
-  let (p, l) = cy_amsend start step coro fx s VNone in
-  let (r, s') = p in (((result_of_gres r), s'), l)
+  let (p, l) = cy_amsend start step coro agen fx s VNone in
+  let (r, s') = p in (((result_of_gres agen r), s'), l)
 | Send v ->
-  let (p, l) = cy_amsend start step coro fx s v in
-  let (r, s') = p in (((result_of_gres r), s'), l)
+  let (p, l) = cy_amsend start step coro agen fx s v in
+  let (r, s') = p in (((result_of_gres agen r), s'), l)
 | Throw e ->
-  let (p, l) = cy_throw start step coro fx s e in
-  let (r, s') = p in (((result_of_gres r), s'), l)
+  let (p, l) = cy_throw start step coro agen fx true s e in
+  let (r, s') = p in (((result_of_gres agen r), s'), l)
 | Close ->
-  let (p, l) = cy_close start step coro fx s in
+  let (p, l) = cy_close start step coro agen fx s in
   let (r, s') = p in
   (((match r with
      | GError e -> RRaise e
      | _ -> RNone), s'), l)
-| Del -> cy_del start step coro fx s
+| Del -> cy_del start step coro agen fx s
+| ThrowNC e ->
+  let (p, l) = cy_throw start step coro agen fx false s e in
+  let (r, s') = p in (((result_of_gres agen r), s'), l)
 
 (** val py_send_ex :
-    'a1 -> ('a1 -> input -> 'a1 outcome) -> bool -> 'a1 pstate -> sendarg ->
-    bool -> (gres * 'a1 pstate) * 'a1 log **)
+    'a1 -> ('a1 -> input -> 'a1 outcome) -> bool -> bool -> 'a1 pstate ->
+    sendarg -> bool -> (gres * 'a1 pstate) * 'a1 log **)
 
-let py_send_ex start step coro s a closing =
+let py_send_ex start step coro agen s a closing =
   match s with
   | PCreated ->
     (match a with
@@ -722,7 +742,7 @@ let py_send_ex start step coro s a closing =
            | OReturn v0 ->
              (((GReturn v0), PCompleted), ((start, (ISend VNone)) :: []))
            | ORaise e ->
-             (((GError (pep479 e)), PCompleted), ((start, (ISend
+             (((GError (pep479 agen e)), PCompleted), ((start, (ISend
                VNone)) :: [])))
         | VInt _ -> (((GError (EType Z0)), s), []))
      | AExc e -> (((GError e), PCompleted), []))
@@ -736,7 +756,7 @@ let py_send_ex start step coro s a closing =
      | ODelegate (v, it, k') ->
        (((GNext v), (PSuspended (k', (Some it)))), ((k, i) :: []))
      | OReturn v -> (((GReturn v), PCompleted), ((k, i) :: []))
-     | ORaise e -> (((GError (pep479 e)), PCompleted), ((k, i) :: [])))
+     | ORaise e -> (((GError (pep479 agen e)), PCompleted), ((k, i) :: [])))
   | PExecuting -> (((GError (EValue Z0)), s), [])
   | PCompleted ->
     if (&&) coro (negb closing)
@@ -752,10 +772,10 @@ let py_arg_at_yf e = match e with
 | _ -> AExc e
 
 (** val py_send :
-    'a1 -> ('a1 -> input -> 'a1 outcome) -> bool -> 'a1 pstate -> val0 ->
-    (gres * 'a1 pstate) * 'a1 log **)
+    'a1 -> ('a1 -> input -> 'a1 outcome) -> bool -> bool -> 'a1 pstate ->
+    val0 -> (gres * 'a1 pstate) * 'a1 log **)
 
-let py_send start step coro s v =
+let py_send start step coro agen s v =
   match s with
   | PSuspended (k, yf) ->
     (match yf with
@@ -764,10 +784,10 @@ let py_send start step coro s v =
        (match s0 with
         | SYield y -> (((GNext y), (PSuspended (k, (Some it')))), [])
         | SErr e ->
-          py_send_ex start step coro (PSuspended (k, None)) (py_arg_at_yf e)
-            false)
-     | None -> py_send_ex start step coro s (AVal v) false)
-  | _ -> py_send_ex start step coro s (AVal v) false
+          py_send_ex start step coro agen (PSuspended (k, None))
+            (py_arg_at_yf e) false)
+     | None -> py_send_ex start step coro agen s (AVal v) false)
+  | _ -> py_send_ex start step coro agen s (AVal v) false
 
 (** val py_close_iter : subiter -> exc option * subiter **)
 
@@ -777,42 +797,42 @@ let py_close_iter it =
   | None -> (None, it)
 
 (** val py_throw :
-    'a1 -> ('a1 -> input -> 'a1 outcome) -> bool -> 'a1 pstate -> exc ->
-    (gres * 'a1 pstate) * 'a1 log **)
+    'a1 -> ('a1 -> input -> 'a1 outcome) -> bool -> bool -> bool -> 'a1
+    pstate -> exc -> (gres * 'a1 pstate) * 'a1 log **)
 
-let py_throw start step coro s e =
+let py_throw start step coro agen close_on_genexit s e =
   match s with
   | PSuspended (k, yf) ->
     (match yf with
      | Some it ->
-       if is_genexit e
+       if (&&) (is_genexit e) close_on_genexit
        then let (err, _) = py_close_iter it in
             (match err with
              | Some e' ->
-               py_send_ex start step coro (PSuspended (k, None))
+               py_send_ex start step coro agen (PSuspended (k, None))
                  (py_arg_at_yf e') false
              | None ->
-               py_send_ex start step coro (PSuspended (k, None)) (AExc e)
-                 false)
+               py_send_ex start step coro agen (PSuspended (k, None)) (AExc
+                 e) false)
        else (match si_throw it with
              | Some f ->
                let (s0, it') = f e in
                (match s0 with
                 | SYield y -> (((GNext y), (PSuspended (k, (Some it')))), [])
                 | SErr e' ->
-                  py_send_ex start step coro (PSuspended (k, None))
+                  py_send_ex start step coro agen (PSuspended (k, None))
                     (py_arg_at_yf e') false)
              | None ->
-               py_send_ex start step coro (PSuspended (k, None))
+               py_send_ex start step coro agen (PSuspended (k, None))
                  (py_arg_at_yf e) false)
-     | None -> py_send_ex start step coro s (AExc e) false)
-  | _ -> py_send_ex start step coro s (AExc e) false
+     | None -> py_send_ex start step coro agen s (AExc e) false)
+  | _ -> py_send_ex start step coro agen s (AExc e) false
 
 (** val py_close :
-    'a1 -> ('a1 -> input -> 'a1 outcome) -> bool -> 'a1 pstate -> (gres * 'a1
-    pstate) * 'a1 log **)
+    'a1 -> ('a1 -> input -> 'a1 outcome) -> bool -> bool -> 'a1 pstate ->
+    (gres * 'a1 pstate) * 'a1 log **)
 
-let py_close start step coro s = match s with
+let py_close start step coro agen s = match s with
 | PCreated -> (((GReturn VNone), PCompleted), [])
 | PSuspended (_, _) ->
   (match s with
@@ -822,7 +842,7 @@ let py_close start step coro s = match s with
              | Some e -> py_arg_at_yf e
              | None -> AExc EGenExit
      in
-     let (p, l) = py_send_ex start step coro s a true in
+     let (p, l) = py_send_ex start step coro agen s a true in
      let (r, s2) = p in
      (match r with
       | GNext _ -> (((GError (ERuntime (Zpos XH))), s2), l)
@@ -840,7 +860,7 @@ let py_close start step coro s = match s with
                 | Some e -> py_arg_at_yf e
                 | None -> AExc EGenExit
         in
-        let (p, l) = py_send_ex start step coro s1 a true in
+        let (p, l) = py_send_ex start step coro agen s1 a true in
         let (r0, s2) = p in
         (match r0 with
          | GNext _ -> (((GError (ERuntime (Zpos XH))), s2), l)
@@ -856,7 +876,7 @@ let py_close start step coro s = match s with
           | Some e -> py_arg_at_yf e
           | None -> AExc EGenExit
         in
-        let (p, l) = py_send_ex start step coro s a true in
+        let (p, l) = py_send_ex start step coro agen s a true in
         let (r, s2) = p in
         (match r with
          | GNext _ -> (((GError (ERuntime (Zpos XH))), s2), l)
@@ -871,7 +891,7 @@ let py_close start step coro s = match s with
              | Some e -> py_arg_at_yf e
              | None -> AExc EGenExit
      in
-     let (p, l) = py_send_ex start step coro s a true in
+     let (p, l) = py_send_ex start step coro agen s a true in
      let (r, s2) = p in
      (match r with
       | GNext _ -> (((GError (ERuntime (Zpos XH))), s2), l)
@@ -888,7 +908,7 @@ let py_close start step coro s = match s with
              | Some e -> py_arg_at_yf e
              | None -> AExc EGenExit
      in
-     let (p, l) = py_send_ex start step coro s a true in
+     let (p, l) = py_send_ex start step coro agen s a true in
      let (r, s2) = p in
      (match r with
       | GNext _ -> (((GError (ERuntime (Zpos XH))), s2), l)
@@ -906,7 +926,7 @@ let py_close start step coro s = match s with
                 | Some e -> py_arg_at_yf e
                 | None -> AExc EGenExit
         in
-        let (p, l) = py_send_ex start step coro s1 a true in
+        let (p, l) = py_send_ex start step coro agen s1 a true in
         let (r0, s2) = p in
         (match r0 with
          | GNext _ -> (((GError (ERuntime (Zpos XH))), s2), l)
@@ -922,7 +942,7 @@ let py_close start step coro s = match s with
           | Some e -> py_arg_at_yf e
           | None -> AExc EGenExit
         in
-        let (p, l) = py_send_ex start step coro s a true in
+        let (p, l) = py_send_ex start step coro agen s a true in
         let (r, s2) = p in
         (match r with
          | GNext _ -> (((GError (ERuntime (Zpos XH))), s2), l)
@@ -937,7 +957,7 @@ let py_close start step coro s = match s with
              | Some e -> py_arg_at_yf e
              | None -> AExc EGenExit
      in
-     let (p, l) = py_send_ex start step coro s a true in
+     let (p, l) = py_send_ex start step coro agen s a true in
      let (r, s2) = p in
      (match r with
       | GNext _ -> (((GError (ERuntime (Zpos XH))), s2), l)
@@ -949,76 +969,79 @@ let py_close start step coro s = match s with
 | PCompleted -> (((GReturn VNone), s), [])
 
 (** val py_del :
-    'a1 -> ('a1 -> input -> 'a1 outcome) -> bool -> 'a1 pstate ->
+    'a1 -> ('a1 -> input -> 'a1 outcome) -> bool -> bool -> 'a1 pstate ->
     (result * 'a1 pstate) * 'a1 log **)
 
-let py_del start step coro s = match s with
+let py_del start step coro agen s = match s with
 | PCreated ->
   if coro
   then ((RWarn, s), [])
-  else let (p, l) = py_close start step coro s in
+  else let (p, l) = py_close start step coro agen s in
        let (_, s') = p in ((RNone, s'), l)
 | PCompleted -> ((RNone, s), [])
 | _ ->
-  let (p, l) = py_close start step coro s in
+  let (p, l) = py_close start step coro agen s in
   let (r, s') = p in
   (match r with
    | GError e -> (((RUnraisable e), s'), l)
    | _ -> ((RNone, s'), l))
 
 (** val py_op :
-    'a1 -> ('a1 -> input -> 'a1 outcome) -> bool -> 'a1 pstate -> op ->
-    (result * 'a1 pstate) * 'a1 log **)
+    'a1 -> ('a1 -> input -> 'a1 outcome) -> bool -> bool -> 'a1 pstate -> op
+    -> (result * 'a1 pstate) * 'a1 log **)
 
-let py_op start step coro s = function
+let py_op start step coro agen s = function
 | Next ->
-  let (p, l) = py_send start step coro s VNone in
-  let (r, s') = p in (((result_of_gres r), s'), l)
+  let (p, l) = py_send start step coro agen s VNone in
+  let (r, s') = p in (((result_of_gres agen r), s'), l)
 | Send v ->
-  let (p, l) = py_send start step coro s v in
-  let (r, s') = p in (((result_of_gres r), s'), l)
+  let (p, l) = py_send start step coro agen s v in
+  let (r, s') = p in (((result_of_gres agen r), s'), l)
 | Throw e ->
-  let (p, l) = py_throw start step coro s e in
-  let (r, s') = p in (((result_of_gres r), s'), l)
+  let (p, l) = py_throw start step coro agen true s e in
+  let (r, s') = p in (((result_of_gres agen r), s'), l)
 | Close ->
-  let (p, l) = py_close start step coro s in
+  let (p, l) = py_close start step coro agen s in
   let (r, s') = p in
   (((match r with
      | GError e -> RRaise e
      | _ -> RNone), s'), l)
-| Del -> py_del start step coro s
+| Del -> py_del start step coro agen s
+| ThrowNC e ->
+  let (p, l) = py_throw start step coro agen false s e in
+  let (r, s') = p in (((result_of_gres agen r), s'), l)
 
 (** val run_cy :
-    'a1 -> ('a1 -> input -> 'a1 outcome) -> bool -> fixes -> 'a1 cstate -> op
-    list -> (result * 'a1 log) list * 'a1 cstate option **)
+    'a1 -> ('a1 -> input -> 'a1 outcome) -> bool -> bool -> fixes -> 'a1
+    cstate -> op list -> (result * 'a1 log) list * 'a1 cstate option **)
 
-let rec run_cy start step coro fx s = function
+let rec run_cy start step coro agen fx s = function
 | [] -> ([], (Some s))
 | o :: h' ->
   (match o with
    | Del ->
-     let (p, l) = cy_op start step coro fx s Del in
+     let (p, l) = cy_op start step coro agen fx s Del in
      let (r, _) = p in (((r, l) :: []), None)
    | _ ->
-     let (p, l) = cy_op start step coro fx s o in
+     let (p, l) = cy_op start step coro agen fx s o in
      let (r, s') = p in
-     let (t, f) = run_cy start step coro fx s' h' in (((r, l) :: t), f))
+     let (t, f) = run_cy start step coro agen fx s' h' in (((r, l) :: t), f))
 
 (** val run_py :
-    'a1 -> ('a1 -> input -> 'a1 outcome) -> bool -> 'a1 pstate -> op list ->
-    (result * 'a1 log) list * 'a1 pstate option **)
+    'a1 -> ('a1 -> input -> 'a1 outcome) -> bool -> bool -> 'a1 pstate -> op
+    list -> (result * 'a1 log) list * 'a1 pstate option **)
 
-let rec run_py start step coro s = function
+let rec run_py start step coro agen s = function
 | [] -> ([], (Some s))
 | o :: h' ->
   (match o with
    | Del ->
-     let (p, l) = py_op start step coro s Del in
+     let (p, l) = py_op start step coro agen s Del in
      let (r, _) = p in (((r, l) :: []), None)
    | _ ->
-     let (p, l) = py_op start step coro s o in
+     let (p, l) = py_op start step coro agen s o in
      let (r, s') = p in
-     let (t, f) = run_py start step coro s' h' in (((r, l) :: t), f))
+     let (t, f) = run_py start step coro agen s' h' in (((r, l) :: t), f))
 
 (** val c_init : 'a1 cstate **)
 
@@ -1146,17 +1169,17 @@ let close_of_result = function
     z -> (z -> input -> z outcome) -> bool -> fixes -> z cstate -> subiter **)
 
 let rec cy_gen_sub start step coro fx s =
-  lazy (SubIter ((let x = cy_op start step coro fx s Next in
+  lazy (SubIter ((let x = cy_op start step coro false fx s Next in
                   ((sres_of_result (fst (fst x))),
                   (cy_gen_sub start step coro fx (snd (fst x))))), (Some
     (fun v ->
-    let x = cy_op start step coro fx s (Send v) in
+    let x = cy_op start step coro false fx s (Send v) in
     ((sres_of_result (fst (fst x))),
     (cy_gen_sub start step coro fx (snd (fst x)))))), (Some (fun e ->
-    let x = cy_op start step coro fx s (Throw e) in
+    let x = cy_op start step coro false fx s (Throw e) in
     ((sres_of_result (fst (fst x))),
     (cy_gen_sub start step coro fx (snd (fst x)))))), (Some
-    (let x = cy_op start step coro fx s Close in
+    (let x = cy_op start step coro false fx s Close in
      ((close_of_result (fst (fst x))),
      (cy_gen_sub start step coro fx (snd (fst x))))))))
 
@@ -1164,17 +1187,17 @@ let rec cy_gen_sub start step coro fx s =
     z -> (z -> input -> z outcome) -> bool -> z pstate -> subiter **)
 
 let rec py_gen_sub start step coro s =
-  lazy (SubIter ((let x = py_op start step coro s Next in
+  lazy (SubIter ((let x = py_op start step coro false s Next in
                   ((sres_of_result (fst (fst x))),
                   (py_gen_sub start step coro (snd (fst x))))), (Some
     (fun v ->
-    let x = py_op start step coro s (Send v) in
+    let x = py_op start step coro false s (Send v) in
     ((sres_of_result (fst (fst x))),
     (py_gen_sub start step coro (snd (fst x)))))), (Some (fun e ->
-    let x = py_op start step coro s (Throw e) in
+    let x = py_op start step coro false s (Throw e) in
     ((sres_of_result (fst (fst x))),
     (py_gen_sub start step coro (snd (fst x)))))), (Some
-    (let x = py_op start step coro s Close in
+    (let x = py_op start step coro false s Close in
      ((close_of_result (fst (fst x))),
      (py_gen_sub start step coro (snd (fst x))))))))
 
@@ -1302,18 +1325,18 @@ let rec tstep tbl coro fx impl_py d =
     list) list **)
 
 let run_table_cy tbl coro fx d k0 h =
-  fst (run_cy k0 (tstep tbl coro fx false d) coro fx c_init h)
+  fst (run_cy k0 (tstep tbl coro fx false d) coro false fx c_init h)
 
 (** val run_table_py :
     table -> bool -> nat -> z -> op list -> (result * (z * input) list) list **)
 
 let run_table_py tbl coro d k0 h =
-  fst (run_py k0 (tstep tbl coro fx_all true d) coro p_init h)
+  fst (run_py k0 (tstep tbl coro fx_all true d) coro false p_init h)
 
 (** val running_probe_cy : bool -> fixes -> op -> result **)
 
 let running_probe_cy coro fx o =
   fst
     (fst
-      (cy_op Z0 (fun _ _ -> OReturn VNone) coro fx { c_label = (RAt Z0);
-        c_running = true; c_yf = None } o))
+      (cy_op Z0 (fun _ _ -> OReturn VNone) coro false fx { c_label = (RAt
+        Z0); c_running = true; c_yf = None } o))
